@@ -3,8 +3,8 @@ CONSTANTS NClasses = 2
  Homes = {"A", "B"}
  Nla = {"none", "pair"}
  RunCode = TRUE
- ZeroK = TRUE
+ ZeroK = FALSE
  WithU = FALSE
- DiffForms = FALSE
+ DiffForms = TRUE
 INVARIANT Emit
 CHECK_DEADLOCK FALSE
